@@ -1,10 +1,12 @@
 import NdnModel.Cert
 import NdnModel.Calendar
 /-
-  The time side of security_v2: `derive_cert` (start_time + timedelta(seconds=expire_sec)), `sign_req`
-  (datetime.now(UTC), + timedelta(days=10)), `self_sign` (1970-01-01T00:00:00 naive, datetime.now(UTC) with
-  year + 20) and the UTC conversion + `strftime('%Y%m%dT%H%M%S')` in `new_cert`, over the calendar model.
-  Instants are (ordinal, second of day, microsecond); an aware datetime carries its fixed offset in minutes.
+  The time side of security_v2: `derive_cert` (an aware start_time is converted with `astimezone(UTC)` first, then
+  + timedelta(seconds=expire_sec)), `sign_req` (datetime.now(UTC), + timedelta(days=10)), `self_sign`
+  (1970-01-01T00:00:00 naive, datetime.now(UTC) with year + 20) and the UTC conversion +
+  `strftime('%Y%m%dT%H%M%S')` in `new_cert`, over the calendar model.
+  Instants are (ordinal, second of day, microsecond); an aware datetime carries its `fold` and its tzinfo, which
+  is any function from wall-clock readings to UTC offsets in seconds (`Calendar.Zone`: fixed or varying).
 -/
 namespace Ndn.Cert
 open Ndn Ndn.Codec Ndn.Packet Ndn.Calendar
@@ -20,14 +22,16 @@ def minFmtOrdinal : Nat := 364878
 
 /-- the time inputs of the three issuing functions -/
 inductive Issue where
-  /-- `derive_cert(…, start_time, expire_sec)`: wall-clock reading, its UTC offset in minutes (`none` = naive) -/
-  | derive (start : Instant) (off : Option Int) (expire : Int)
+  /-- `derive_cert(…, start_time, expire_sec)`: wall-clock reading and `fold` of start_time, its tzinfo
+      (`none` = naive) -/
+  | derive (start : Instant) (fold : Bool) (zone : Option Zone) (expire : Int)
   /-- `sign_req`: the two readings of `datetime.now(UTC)` (the first + 10 days is the end, the second the start) -/
   | req (now1 now2 : Instant)
   /-- `self_sign`: the reading of `datetime.now(UTC)` -/
   | self (now : Instant)
 
-/-- `new_cert`: aware start / end times are converted with `astimezone(UTC)`, naive ones are taken as UTC -/
+/-- `new_cert`: aware start / end times (`so`, `eo`: the offsets their tzinfo reports for them) are converted with
+    `astimezone(UTC)`, naive ones are taken as UTC -/
 def utcPair (s : Instant) (so : Option Int) (e : Instant) (eo : Option Int) : Except PyErr (Instant × Instant) := do
   let s' ← toUtc s so
   let e' ← toUtc e eo
@@ -35,9 +39,15 @@ def utcPair (s : Instant) (so : Option Int) (e : Instant) (eo : Option Int) : Ex
 
 /-- the two UTC instants whose text goes into the ValidityPeriod -/
 def Issue.instants : Issue → Except PyErr (Instant × Instant)
-  | .derive start off n => do
-      let e ← addSeconds start n
-      utcPair start off e off
+  | .derive start fold zone n => do
+      -- `start_time.utcoffset()`: the tzinfo is asked once, about the start reading
+      let off := zone.map (fun z => z start fold)
+      -- `if start_time.utcoffset() is not None: start_time = start_time.astimezone(UTC)`
+      let s ← toUtc start off
+      -- `end_time = start_time + timedelta(seconds=expire_sec)`: in UTC (offset 0 for every reading), or naive
+      let e ← addSeconds s n
+      let uo := off.map (fun _ => (0 : Int))
+      utcPair s uo e uo
   | .req now1 now2 => do
       let e ← addSeconds now1 (10 * 86400)
       utcPair now2 (some 0) e (some 0)
